@@ -6,16 +6,13 @@
    document.  The Go harness replays the texts through the real Compile / Search.
 
    The universes are defined in Families.tla (index space 0 .. total-1).  This process handles
-   index i iff i % NShards = Shard, and in a quick tier only the seeded slice
-   (i \div NShards) % Stride = Seed % Stride. *)
+   index i iff i % NShards = Shard, thinned by the seeded strides Stride (levels 1-2) and Stride3
+   (level 3), see Families!MineSeq. *)
 EXTENDS Families, Json
 
-CONSTANTS Shard, NShards, OutFile, Seed, Stride
+CONSTANTS Shard, NShards, OutFile, Seed, Stride, Stride3
 
-(* indices of this shard and slice, as a sequence *)
-MineIdx(g) == LET per == (g.total + NShards - 1) \div NShards IN
-              SelectSeq([m \in 1..per |-> (m - 1) * NShards + Shard],
-                        LAMBDA i : i < g.total /\ (i \div NShards) % Stride = Seed % Stride)
+MineIdx(g) == MineSeq(g, Shard, NShards, Stride, Stride3, Seed)
 
 CaseOf(g, i, e) == LET toks == UnparseSt(e, StMin) IN
   IF IsBad(toks) THEN [k |-> "skip", id |-> i]
